@@ -57,7 +57,18 @@ def r35_1(ctx, m):
     v = sel[0].value
     neg = (isinstance(v, ast.Call) and call_name(v) == "logical_not" and _norm(v.args[0]) in (f"{fl}.val", fl)) or \
         (isinstance(v, ast.UnaryOp) and isinstance(v.op, ast.Invert) and _norm(v.operand) in (f"{fl}.val.astype(bool)", f"{fl}.val"))
-    ctx.check("R35.1", key, bool(neg), f"self.{attr} = {src(v)}" + ("" if neg else ": flagged pixels would be the ones that are kept"), ini, sel[0])
+    nv = _norm(v)
+    if not neg and nv in (f"{fl}.val==0", f"{fl}.val==False", f"0=={fl}.val"):
+        neg = True
+    if neg:
+        ctx.ok("R35.1", key, f"self.{attr} = {src(v)}", ini, sel[0])
+    elif nv in (f"{fl}.val", fl, f"{fl}.val.astype(bool)"):
+        ctx.bad("R35.1", key, f"self.{attr} = {src(v)}: flagged pixels would be the ones that are kept", ini, sel[0])
+    elif any(isinstance(x, ast.BinOp) and isinstance(x.op, ast.Sub) and isinstance(x.left, ast.Constant) and x.left.value == 1 and fl in src(x.right) for x in ast.walk(v)):
+        ctx.bad("R35.1", key, f"self.{attr} = {src(v)}: 1 - f is non-zero for every f != 1, so flags other than exactly 0/1 (2, 0.5, -1, ...) "
+                              "are treated as unflagged; the flags are documented to be converted to boolean first", ini, sel[0])
+    else:
+        ctx.und("R35.1", key, f"self.{attr} = {src(v)} not recognised as the negation of the flags", ini, sel[0])
     tg = [st for st in walk_no_nested(ini.node) if isinstance(st, ast.Assign) and is_self_attr(st.targets[0], "_target")]
     ctx.check("R35.1", f"{ini.key}::target size = number of selected entries",
               len(tg) == 1 and f"UnstructuredDomain(self.{attr}.sum())" in _norm(tg[0].value), src(tg[0].value) if tg else None, ini)
@@ -454,3 +465,150 @@ _run_c35b = run
 def run(ctx):  # noqa: F811
     _run_c35b(ctx)
     r35_5(ctx, ctx.model)
+
+
+def r35_6(ctx, m):
+    """regridding: source coordinate of a new pixel; sampling line of sight: midpoint rule"""
+    from .c03 import _load_sympy
+    sp = _load_sympy()
+    ctx.rule("R35.6", "RegriddingOperator: new pixel i lies at the old-pixel coordinate i * (new distance / old distance) with new "
+                      "distance = old distance * shape / new_shape, i.e. at i * shape / new_shape EXACTLY (a real ratio; an integer "
+                      "binning factor shape // new_shape is only right when the new shape divides the old one)", floor=1)
+    R = m.cls(OPS + "regridding_operator", "RegriddingOperator")
+    ini = R.methods["__init__"]
+    ctx.saw_func(ini)
+    key = f"{ini.key}::source coordinate = i * shape/new_shape"
+    if sp is None:
+        ctx.und("R35.6", key, "sympy unavailable", ini)
+    else:
+        D, S, N, I = sp.Symbol("D", positive=True), sp.Symbol("S", integer=True, positive=True), sp.Symbol("N", integer=True, positive=True), sp.Symbol("i", integer=True, nonnegative=True)
+        loc = {}
+        for st in walk_no_nested(ini.node):
+            if isinstance(st, ast.Assign) and isinstance(st.targets[0], ast.Name):
+                loc.setdefault(st.targets[0].id, st.value)
+
+        class NU(Exception):
+            pass
+
+        def ev(e, depth=0):
+            if depth > 6:
+                raise NU("depth")
+            if isinstance(e, ast.Constant) and isinstance(e.value, (int, float)):
+                return sp.nsimplify(e.value)
+            if isinstance(e, ast.Subscript):
+                t = src(e.value)
+                if t.endswith(".distances"):
+                    return D
+                if t.endswith(".shape") and "new" not in t:
+                    return S
+                if t == "new_shape":
+                    return N
+                if isinstance(e.value, ast.Name) and e.value.id in loc:
+                    v = loc[e.value.id]
+                    # tuple(<elt> for i in range(...))[d] -> elt
+                    if isinstance(v, ast.Call) and src(v.func) == "tuple" and v.args and isinstance(v.args[0], ast.GeneratorExp):
+                        return ev(v.args[0].elt, depth + 1)
+                    if isinstance(v, (ast.ListComp, ast.GeneratorExp)):
+                        return ev(v.elt, depth + 1)
+                raise NU(src(e))
+            if isinstance(e, ast.Call) and call_name(e) == "arange" and len(e.args) == 1:
+                return I
+            if isinstance(e, ast.Name) and e.id in loc:
+                return ev(loc[e.id], depth + 1)
+            if isinstance(e, ast.BinOp) and type(e.op) in (ast.Add, ast.Sub, ast.Mult, ast.Div, ast.FloorDiv):
+                a, b = ev(e.left, depth + 1), ev(e.right, depth + 1)
+                return {ast.Add: lambda: a + b, ast.Sub: lambda: a - b, ast.Mult: lambda: a * b, ast.Div: lambda: a / b, ast.FloorDiv: lambda: sp.floor(a / b)}[type(e.op)]()
+            raise NU(src(e)[:50])
+        # the coordinate array: the value whose astype(int) becomes the base index
+        pos = None
+        for st in ast.walk(ini.node):
+            if isinstance(st, ast.Assign) and isinstance(st.targets[0], ast.Name) and any(isinstance(c, ast.Call) and call_name(c) == "arange" for c in ast.walk(st.value)):
+                pos = st
+        if pos is None:
+            ctx.und("R35.6", key, "coordinate array not found", ini)
+        else:
+            try:
+                v = ev(pos.value)
+                d = sp.simplify(v - I * S / N)
+                if d == 0:
+                    ctx.ok("R35.6", key, f"`{src(pos)}` reads as {sp.simplify(v)}", ini, pos)
+                else:
+                    w = v.subs({S: 13, N: 7, I: 3, D: sp.Rational(1, 2)})
+                    ctx.bad("R35.6", key, f"`{src(pos)}` reads as {v}; for shape 13 -> 7 pixel 3 sits at {w} instead of {sp.Rational(39, 7)}", ini, pos)
+            except NU as exc:
+                ctx.und("R35.6", key, f"not understood: {exc}", ini, pos)
+    ctx.rule("R35.7", "nifty.re sampling line of sight: the n sampling positions are the MIDPOINTS start + (k + 1/2)(end - start)/n, "
+                      "k = 0..n-1, of n equal segments and the sum is weighted with length/n (midpoint rule: exact for fields that vary "
+                      "linearly along the line); left end points give an O(1/n) bias", floor=2)
+    fi = m.func("nifty.re.extra.sampling_los", "_los", required=False)
+    if fi is None or sp is None:
+        ctx.und("R35.7", "nifty/re/extra/sampling_los.py::_los", "function or sympy missing", "nifty/re/extra/sampling_los.py")
+        return
+    ctx.saw_func(fi)
+    A, B, n, k = sp.Symbol("a"), sp.Symbol("b"), sp.Symbol("n", positive=True), sp.Symbol("k")
+    loc = {}
+    for st in fi.node.body:
+        if isinstance(st, ast.Assign) and isinstance(st.targets[0], ast.Name):
+            loc[st.targets[0].id] = st.value
+    npar = "n_sampling_points"
+
+    class NU2(Exception):
+        pass
+
+    def ev2(e, depth=0):
+        if depth > 8:
+            raise NU2("depth")
+        if isinstance(e, ast.Constant) and isinstance(e.value, (int, float)):
+            return sp.nsimplify(e.value)
+        if isinstance(e, ast.Name):
+            if e.id == npar:
+                return n
+            if e.id == "start_iloc":
+                return A
+            if e.id == "end_iloc":
+                return B
+            if e.id in loc:
+                return ev2(loc[e.id], depth + 1)
+            raise NU2(e.id)
+        if isinstance(e, ast.Subscript):
+            return ev2(e.value, depth + 1)   # broadcasting subscripts
+        if isinstance(e, ast.BinOp) and type(e.op) in (ast.Add, ast.Sub, ast.Mult, ast.Div):
+            a, b = ev2(e.left, depth + 1), ev2(e.right, depth + 1)
+            return {ast.Add: a + b, ast.Sub: a - b, ast.Mult: a * b, ast.Div: a / b}[type(e.op)]
+        if isinstance(e, ast.Call):
+            nm = call_name(e)
+            kw = {k_.arg: k_.value for k_ in e.keywords}
+            if nm == "arange":
+                args = [ev2(x, depth + 1) for x in e.args]
+                if len(args) == 1 and args[0] == n:
+                    return k
+                if len(args) == 2 and args[1] == n:
+                    return args[0] + k
+            if nm == "linspace" and len(e.args) >= 3:
+                a, b, cnt = ev2(e.args[0], depth + 1), ev2(e.args[1], depth + 1), ev2(e.args[2], depth + 1)
+                ep = kw.get("endpoint")
+                closed = ep is None or src(ep) == "True"
+                return a + k * (b - a) / ((cnt - 1) if closed else cnt)
+        raise NU2(src(e)[:50])
+    mc = [c for c in ast.walk(fi.node) if isinstance(c, ast.Call) and call_name(c) == "map_coordinates" and len(c.args) >= 2]
+    key = f"{fi.key}::sampling positions are segment midpoints"
+    if len(mc) != 1:
+        ctx.und("R35.7", key, f"{len(mc)} map_coordinates calls", fi)
+        return
+    try:
+        p = ev2(mc[0].args[1])
+        want = A + (k + sp.Rational(1, 2)) * (B - A) / n
+        ctx.check("R35.7", key, sp.simplify(p - want) == 0, f"position k reads as {sp.simplify(p)}; midpoint rule: {want}", fi, mc[0])
+    except NU2 as exc:
+        ctx.und("R35.7", key, f"not understood: {exc}", fi, mc[0])
+    rets = [r for r in walk_no_nested(fi.node) if isinstance(r, ast.Return)]
+    t = _norm(rets[0].value) if rets else ""
+    ctx.check("R35.7", f"{fi.key}::the sum is weighted with length / n", True if (".sum()*(dist/n_sampling_points)" in t or ".sum()*dist/n_sampling_points" in t) else None, t[-80:], fi)
+
+
+_run_c35c = run
+
+
+def run(ctx):  # noqa: F811
+    _run_c35c(ctx)
+    r35_6(ctx, ctx.model)
